@@ -1,4 +1,4 @@
-use html5ever::{tendril::StrTendril, Attribute, LocalName};
+use html5ever::{namespace_url, ns, tendril::StrTendril, Attribute, LocalName};
 use phf::{phf_map, phf_set, Map, Set};
 use wildmatch::WildMatch;
 
@@ -364,10 +364,13 @@ impl SanitizerConfig {
 
                 // Check if the attribute is allowed.
                 if whitelist_attrs {
+                    // The lists only contain HTML attributes. Attributes in another namespace, like
+                    // `xlink:href` in foreign content, are serialized with their prefix.
+                    let has_namespace = attr.name.ns != ns!();
                     let list_allowed = list_allow_attrs.is_some_and(|set| set.contains(attr_name));
                     let mode_allowed = mode_allow_attrs.is_some_and(|set| set.contains(attr_name));
 
-                    if !list_allowed && !mode_allowed {
+                    if has_namespace || (!list_allowed && !mode_allowed) {
                         return Some(AttributeAction::Remove(attr.to_owned()));
                     }
                 }
